@@ -10,7 +10,7 @@ CHECKS = {
          "Trusts go/ssa dominators, the checker's term evaluator, and crypto/elliptic, math/big, crypto/sha512 behaving as documented.",
          "DESIGN.md §4 C06"),
  "C07": ("guard-dominance (must-pass-through) on SSA with symbolic argument bindings + decoder read-sequence extraction + inductive backward-scan rule for the origin unpadder",
-         "Sound static analysis of structural necessary conditions: every path of RateLimitedIssuer.Evaluate that returns a response passes the success edges of complete parse, HPKE open under the issuer's own key with the request key in the associated data, registered-origin lookup and request-signature verification over all fields; BlindSign/Seal sit behind those edges; the request decoder checks every read and rejects trailing data. Quantifies over paths, hence over all inputs. Does not prove AEAD/ECDSA soundness (every single-bit change rejected).",
+         "Sound static analysis of structural necessary conditions: every path of RateLimitedIssuer.Evaluate that returns a response passes the success edges of complete parse, HPKE open under the issuer's own key with the request key in the associated data, registered-origin lookup and request-signature verification over all fields; BlindSign/Seal sit behind those edges; the request decoder and the inner (decrypted) request decoder check every read and reject trailing data, and decryptOriginTokenRequest never returns, with a nil error, the object its inner decoder refused. Quantifies over paths, hence over all inputs. Does not prove AEAD/ECDSA soundness (every single-bit change rejected).",
          "Trusts go/ssa dominators, this checker's term/reader extraction, go-hpke, circl blindrsa and crypto/elliptic behaving as documented.",
          "DESIGN.md §4 C07"),
  "C02": ("guard-dominance (must-pass-through) on SSA with symbolic argument bindings; constructor-binding and who-writes-field queries; bit-provenance abstract interpretation of the dependency's scalar decoders (input bits ignored); over-approximate dependence slice of the batched-proof weights; may-write summaries for the request state",
@@ -58,7 +58,7 @@ CHECKS = {
          "Trusts go/ssa dominators/loops, this checker's term evaluator; registered issuers behave like the repository's (non-empty response on success).",
          "DESIGN.md §4 C05"),
  "C18": ("symbolic ASN.1 layout terms (cryptobyte builder trees with OIDs by value), checked read sequences, return-term bindings on SSA, EncapKey decoder/encoder field agreement",
-         "Sound static analysis of structural necessary conditions: MarshalTokenKeyPSSOID's builder term equals the prescribed RSASSA-PSS SPKI tree (SHA-384, MGF1-SHA-384, salt 48; OIDs by value, single initialisation); UnmarshalTokenKey performs the checked SEQ{SEQ,BITSTRING{SEQ{INT,INT}}} reads and returns the integers read; every issuer's TokenKeyID is a freshly computed SHA-256 of its serialized public key; type-1/2/5 requests carry the last byte of the id; the type-3 name key id is SHA-256 of the EncapKey encoding, and the value stored in the request's NameKeyID field is followed back through the helpers it comes from to that hash of the name key ARGUMENT (a memo or table in between is not accepted); no key type's Marshal returns a cache seeded outside Marshal. Does not decide DER round trips for every modulus/exponent (encoding/asn1, cryptobyte).",
+         "Sound static analysis of structural necessary conditions: MarshalTokenKeyPSSOID's builder term equals the prescribed RSASSA-PSS SPKI tree (SHA-384, MGF1-SHA-384, salt 48; OIDs by value, single initialisation); UnmarshalTokenKey performs the checked SEQ{SEQ,BITSTRING{SEQ{INT,INT}}} reads into destinations as wide as the writers' fields (big.Int modulus; exponent big.Int or a signed integer no narrower than rsa.PublicKey.E) and returns the integers read; every issuer's TokenKeyID is a freshly computed SHA-256 of its serialized public key; type-1/2/5 requests carry the last byte of the id; the type-3 name key id is SHA-256 of the EncapKey encoding, and the value stored in the request's NameKeyID field is followed back through the helpers it comes from to that hash of the name key ARGUMENT (a memo or table in between is not accepted); no key type's Marshal returns a cache seeded outside Marshal. Does not decide DER round trips for every modulus/exponent (encoding/asn1, cryptobyte).",
          "Trusts go/ssa, this checker's term and reader extractors, encoding/asn1 and cryptobyte as documented.",
          "DESIGN.md §4 C18"),
  "C19": ("bit-provenance abstract interpretation on SSA (each bit is 0, 1 or a named input bit; constant shifts, masks, ORs, width conversions exact) composed across AppendVarint and ConsumeVarint; guard-dominance facts; linear range proving (Fourier-Motzkin) of index/slice obligations and of the returned view (offset, length); may-write effect summaries; for a decoder driven by a computed size (n = 1 << (b[0]>>6)): abstract interpretation of ConsumeVarint with trace partitioning on the two class bits and the available length, payload bits symbolic; bounds proving for every module function that consumes a declared length",
@@ -81,8 +81,8 @@ CHECKS = {
          "Sound static analysis of structural necessary conditions: 77 functions of the arithmetic core, key generation and key derivation are syntactically the standard library's (modulo renaming), so they compute what it computes; constants agree by value; Verify accepts only behind the five RFC 8032 guards with the standard hash input; signing uses the standard hash inputs and output layout; the canonical-S test scans all 32 bytes against L-1, most significant first, returning true on <, false on >, and true when all are equal (decided by orderings, not by enumerating byte values); a lazily built table spelled with sync.OnceValue agrees when its body is the reference's, statement by statement. Does not decide the fork-specific ref10 scalar arithmetic (scMulAdd, scReduce, SetBytes, ModInverse) - the larger part of bit-compatibility - for which no reference exists in the sandbox.",
          "Trusts go/parser, this checker's AST matcher, go/ssa, the GOROOT source of the default toolchain as reference, the reviewed divergent list (printed in evidence).",
          "DESIGN.md §4 C14"),
- "C03": ("range proving on SSA: linear obligations over symbolic atoms decided by Fourier-Motzkin entailment from dominating guards, SSA definitions, loop induction, reviewed post-/pre-condition tables and translated callee success facts; loop-shape and recursion checks; unchecked-read detection; constructor-literal completeness for embedded structs whose zero value holds nil interfaces",
-         "Sound static analysis of a structural sufficient condition for 'no panic, termination, allocation proportional to input' inside pat-go code: every slice (hi <= len, not cap), index, make (bounded by a constant or an input length), non-constant division, slice-to-array conversion and callee precondition in every pat-go function reachable from the 36 peer-bytes entry points is proved (478 obligations on amd64; thorough repeats for 386 and arm64, where int is 32 bits); every cryptobyte read's result is used; all 15 loops match terminating shapes; no recursion; explicit panics are documented own-key preconditions; the ECDSA core is behind its range checks; every composite literal that builds a module struct sets each embedded-by-value struct field whose zero value holds nil interfaces, if that field is read anywhere. Does not cover panics/allocation inside dependencies on well-typed input, nil caller pointers, or machine-word overflow of length arithmetic.",
+ "C03": ("range proving on SSA: linear obligations over symbolic atoms decided by Fourier-Motzkin entailment from dominating guards, SSA definitions, loop induction, reviewed post-/pre-condition tables and translated callee success facts; loop-shape and recursion checks; unchecked-read detection; nil-pointer-result/verdict agreement between scope functions and their dereferencing callers; constructor-literal completeness for embedded structs whose zero value holds nil interfaces",
+         "Sound static analysis of a structural sufficient condition for 'no panic, termination, allocation proportional to input' inside pat-go code: every slice (hi <= len, not cap), index, make (bounded by a constant or an input length), non-constant division, slice-to-array conversion and callee precondition in every pat-go function reachable from the 36 peer-bytes entry points is proved (obligation count in the evidence file; thorough repeats for 386 and arm64, where int is 32 bits); every cryptobyte read's result is used; all 15 loops match terminating shapes; no recursion; explicit panics are documented own-key preconditions; the ECDSA core is behind its range checks; every composite literal that builds a module struct sets each embedded-by-value struct field whose zero value holds nil interfaces, if that field is read anywhere; a scope function returning a pointer with a verdict returns nil only on failure returns when a caller dereferences it behind the verdict check alone. Does not cover panics/allocation inside dependencies on well-typed input, nil caller pointers, or machine-word overflow of length arithmetic.",
          "Trusts go/ssa, ranges.go (Fourier-Motzkin over rationals), the reviewed post-condition/precondition/positive-getter tables (printed in evidence), C14 identity for matched arithmetic functions; dependencies do not panic on well-typed arguments.",
          "DESIGN.md §4 C03"),
 }
